@@ -42,7 +42,7 @@ SPEC = dict(
     drivers=[dict(name='race', drv_mod='Drv.Race', drv_file='Drv/Race.v', shard=400, race=True,
                   args={'quick': ['rounds=4', 'ms=2500'], 'thorough': ['rounds=12', 'ms=6000']},
                   timeout={'quick': 600, 'thorough': 3000},
-                  env={'VERIF_ACCESSES': _table_json()})],
+                  env={'VERIF_ACCESSES': _table_json(), 'VERIF_RACE_SITES': os.path.join(_here, 'C20_sites.json')})],
     rule='one case per candidate group = (memory cell, unordered pair of goroutine kinds) for which the regenerated access table '
          'contains a pair of accesses with conflicting modes (exhaustive over the table: bound = the table); the static verdict is '
          'the verified classifier evaluated inside Coq, the dynamic observation is the number of Go race-detector reports mapped to '
@@ -50,13 +50,15 @@ SPEC = dict(
          '(list and item endpoints through echo.ServeHTTP), Prometheus collectors (registry Gather), a third-party pwm writer and '
          'transient injected device faults (stateless, lock-free file-layer hooks: ~3% of sensor reads, ~4% rpm reads, ~2% pwm reads and writes fail, '
          'so every error / warning path incl. failed PID-curve evaluation -> restore -> controller restart runs under the detector) '
-         'run in-process at 1 ms tick rates on 8 fans (4 hwmon, 3 file, 1 cmd) created by the real start-up glue of backend.go '
+         'run in-process at 1 ms tick rates on 10 fans (4 hwmon, 5 file incl. two whose pwm file does not exist at start-up, one of them starting late, 1 cmd) created by the real start-up glue of backend.go '
          '(initializeSensors/Curves/Fans/FanControllers) from a configuration that selects the control algorithm in every way '
          '(default PID x2, explicit pid, deprecated controlLoop, direct unlimited x2, direct limited x2), sharing two sensors, a PID curve '
          'and a function curve, for `rounds` child '
          'processes of `ms` milliseconds each (seeded request mix; schedules are not reproducible). Every report is parsed (both '
          'stacks), its goroutine kinds are read off the stacks and it is mapped to a pair of table entries; a report that maps to '
          'no pair is emitted as its own case with mapped=false (= translator missed an access -> mismatch and failure). '
+         'A recorded finding whose set of access sites (kind, mode, function, lockset) grew since it was triaged (lib/props/C20_sites.json, '
+         'written by tools/mk_race_findings.py --sites) is emitted as its own failing case naming the new site. '
          'Non-trivial = every emitted group (it has a conflicting pair); distinct = distinct groups.',
     assumptions=[
         'Go memory model: program order, go-statement and mutex Lock/Unlock happens-before; two conflicting accesses without a common '
